@@ -316,6 +316,12 @@ class Ctx:
         self.known = load_known(pid)
         self.nreplay = 0
         self.thorough = tier == 'thorough'
+        try:
+            for fn in os.listdir(REPLAYS):
+                if fn.startswith(f'{pid}-'):
+                    os.remove(os.path.join(REPLAYS, fn))
+        except FileNotFoundError:
+            pass
 
     # --- recording
     def scale(self, quick: int, thorough: int) -> int:
